@@ -49,6 +49,9 @@ static size_t bal(void) {
 static double dg(const std::vector<int> &e, const std::vector<double> &a, const std::vector<double> &b) {
   double h = 0; for (size_t k = 0; k < e.size(); k++) h += e[k] * (k + 1.0) + (k < a.size() ? a[k] * (k + 3.0) : 0) + (k < b.size() ? b[k] * (k + 7.0) : 0); return h; }
 
+/* Atomic_Factors: i[1] = 8 + mask selects which of the three outputs are requested (NULL pointers for the others); 0 = all three */
+#define AF_MASK(r) (((r)->i[1] & 8) ? ((r)->i[1] & 7) : 7)
+
 static Out c_side(const xv_req *r, xrl_error **e) {
   Out o; o.kind = 0; o.v[0] = o.v[1] = o.v[2] = 0; o.aux = 0; const char *s = S(r->s);
   if (r->fn < XV_NFN) { o.v[0] = xv_call(r->fn, r->i, r->d, s, e); return o; }
@@ -56,7 +59,7 @@ static Out c_side(const xv_req *r, xrl_error **e) {
   case XS_Refractive_Index: { xrlComplex z = Refractive_Index(s, r->d[0], r->d[1], e); o.v[0] = z.re; o.v[1] = z.im; break; }
   case XS_SymbolToAtomicNumber: o.v[0] = SymbolToAtomicNumber(s, e); break;
   case XS_AtomicNumberToSymbol: { char *t = AtomicNumberToSymbol(r->i[0], e); if (t) { o.what = t; xrlFree(t); } break; }
-  case XS_Atomic_Factors: o.aux = Atomic_Factors(r->i[0], r->d[0], r->d[1], r->d[2], &o.v[0], &o.v[1], &o.v[2], e); break;
+  case XS_Atomic_Factors: { int m = AF_MASK(r); o.aux = Atomic_Factors(r->i[0], r->d[0], r->d[1], r->d[2], (m & 1) ? &o.v[0] : NULL, (m & 2) ? &o.v[1] : NULL, (m & 4) ? &o.v[2] : NULL, e); break; }
   case XS_CompoundParser_summary: { struct compoundData *c = CompoundParser(s, e); if (c) { o.aux = c->nElements; o.v[0] = c->nAtomsAll; o.v[1] = c->molarMass;
       o.v[2] = dg(std::vector<int>(c->Elements, c->Elements + c->nElements), std::vector<double>(c->massFractions, c->massFractions + c->nElements), std::vector<double>(c->nAtoms, c->nAtoms + c->nElements)); FreeCompoundData(c); } break; }
   case XS_NISTByName_summary: case XS_NISTByIndex_summary: { struct compoundDataNIST *c = r->fn == XS_NISTByName_summary ? GetCompoundDataNISTByName(s, e) : GetCompoundDataNISTByIndex(r->i[0], e);
@@ -92,7 +95,7 @@ static Out cpp_side(const xv_req *r) {
   case XS_Refractive_Index: return guarded([&](Out &o) { std::complex<double> z = xrlpp::Refractive_Index(str, r->d[0], r->d[1]); o.v[0] = z.real(); o.v[1] = z.imag(); });
   case XS_SymbolToAtomicNumber: return guarded([&](Out &o) { o.v[0] = xrlpp::SymbolToAtomicNumber(str); });
   case XS_AtomicNumberToSymbol: return guarded([&](Out &o) { o.what = xrlpp::AtomicNumberToSymbol(r->i[0]); });
-  case XS_Atomic_Factors: return guarded([&](Out &o) { o.aux = xrlpp::Crystal::Atomic_Factors(r->i[0], r->d[0], r->d[1], r->d[2], &o.v[0], &o.v[1], &o.v[2]); });
+  case XS_Atomic_Factors: return guarded([&](Out &o) { int m = AF_MASK(r); o.aux = xrlpp::Crystal::Atomic_Factors(r->i[0], r->d[0], r->d[1], r->d[2], (m & 1) ? &o.v[0] : NULL, (m & 2) ? &o.v[1] : NULL, (m & 4) ? &o.v[2] : NULL); });
   case XS_CompoundParser_summary: return guarded([&](Out &o) { xrlpp::compoundData c = xrlpp::CompoundParser(str); o.aux = c.nElements; o.v[0] = c.nAtomsAll; o.v[1] = c.molarMass; o.v[2] = dg(c.Elements, c.massFractions, c.nAtoms); });
   case XS_NISTByName_summary: return guarded([&](Out &o) { xrlpp::compoundDataNIST c = xrlpp::GetCompoundDataNISTByName(str); o.aux = c.nElements; o.v[0] = c.density; o.what = c.name; o.v[2] = dg(c.Elements, c.massFractions, std::vector<double>()); });
   case XS_NISTByIndex_summary: return guarded([&](Out &o) { xrlpp::compoundDataNIST c = xrlpp::GetCompoundDataNISTByIndex(r->i[0]); o.aux = c.nElements; o.v[0] = c.density; o.what = c.name; o.v[2] = dg(c.Elements, c.massFractions, std::vector<double>()); });
